@@ -20,6 +20,7 @@ inductive Err
   | nolastcommit  -- "proposed/local last commit is empty"
   | ve            -- "failed to validate extended commit info"
   | pre           -- "failed to prepare for executing block" / "failed to execute block"
+  | upgrade       -- "upgrade change hashes (…) do not match expected (…)"
   | construct     -- "failed to construct checked transactions …"
   | seqlimit      -- "max block sequenced data limit passed"
   | group         -- "transactions have incorrect transaction group ordering"
@@ -37,7 +38,7 @@ inductive Err
 
 def Err.name : Err → String
   | .nohash => "nohash" | .parse => "parse" | .nolastcommit => "nolastcommit" | .ve => "ve"
-  | .pre => "pre" | .construct => "construct" | .seqlimit => "seqlimit" | .group => "group"
+  | .pre => "pre" | .upgrade => "upgrade" | .construct => "construct" | .seqlimit => "seqlimit" | .group => "group"
   | .exec => "exec" | .size => "size" | .root1 => "root1" | .root2 => "root2" | .post => "post"
   | .prices => "prices" | .nocache => "nocache" | .fingerprint => "fingerprint"
   | .constraints => "constraints" | .injected => "injected"
@@ -58,14 +59,14 @@ string (equal ids ⇔ equal bytes). -/
 inductive Item
   | root1 (bid : Nat)                       -- DataItem::RollupTransactionsRoot
   | root2 (bid : Nat)                       -- DataItem::RollupIdsRoot
-  | upgrade (bid : Nat)                     -- DataItem::UpgradeChangeHashes
+  | upgrade (bid len : Nat)                 -- DataItem::UpgradeChangeHashes
   | eci (bid len : Nat) (wellFormed : Bool) -- DataItem::ExtendedCommitInfo; `wellFormed`: its payload converts to the native type
   | tx (t : Tx)                             -- bytes of a transaction
   | garbage (bid len : Nat)                 -- bytes that decode as neither
   deriving DecidableEq, Repr, Inhabited
 
 def Item.len : Item → Nat
-  | .root1 _ => 34 | .root2 _ => 34 | .upgrade _ => 0 | .eci _ l _ => l | .tx t => t.len
+  | .root1 _ => 34 | .root2 _ => 34 | .upgrade _ l => l | .eci _ l _ => l | .tx t => t.len
   | .garbage _ l => l
 
 /-! ## execution_state.rs -/
@@ -215,6 +216,9 @@ structure Prims (S : Type) where
   execTx : S → Tx → TxOutcome S
   /-- `generate_rollup_datas_commitment(txs, cached deposits)` as the ids of the two encoded items -/
   roots : S → List Tx → Nat × Nat
+  /-- the encoded `UpgradeChangeHashes` item (id, length) if `pre_execute_transactions` executed an
+  upgrade at this height -/
+  upgradeItem : S → PrepReq → Option (Nat × Nat)
   /-- the extended-commit-info item `PrepareProposal` builds (id, length) and the empty fallback -/
   eciFull : S → PrepReq → Nat × Nat
   eciEmpty : Nat × Nat
@@ -242,7 +246,7 @@ def parseItems (veOn : Bool) : List Item → Except Err Parsed
   | .root1 a :: .root2 b :: rest =>
       let (up, rest) : Option Nat × List Item :=
         match rest with
-        | .upgrade u :: r => (some u, r)
+        | .upgrade u _ :: r => (some u, r)
         | r => (none, r)
       if veOn then
         match rest with
@@ -422,16 +426,33 @@ def prepEci {S : Type} (p : Prims S) (s : S) (r : PrepReq) (bsc : BSC) : Except 
         | .error _ => .error .injected
   else .ok (none, bsc)
 
+/-- The items `prepare_proposal` injects after the two commitments, with their sizes accounted:
+the upgrade change hashes (if an upgrade was executed; "exceeded size limit while adding upgrade
+change hashes" if they do not fit) and the extended commit info. -/
+def prepInjected {S : Type} (p : Prims S) (s : S) (r : PrepReq) (bsc : BSC) : Except Err (List Item × BSC) :=
+  match p.upgradeItem s r with
+  | none =>
+    match prepEci p s r bsc with
+    | .error e => .error e
+    | .ok (e, b) => .ok (e.toList, b)
+  | some (ub, ul) =>
+    match bsc.cometAdd ul with
+    | .error _ => .error .injected
+    | .ok bsc' =>
+      match prepEci p s r bsc' with
+      | .error e => .error e
+      | .ok (e, b) => .ok (Item.upgrade ub ul :: e.toList, b)
+
 /-- the `txs` of the `PrepareProposal` response -/
-def proposalItems (r1 r2 : Nat) (eci : Option Item) (done : List Executed) : List Item :=
-  [Item.root1 r1, Item.root2 r2] ++ eci.toList ++ done.map (fun e => Item.tx e.1)
+def proposalItems (r1 r2 : Nat) (inj : List Item) (done : List Executed) : List Item :=
+  [Item.root1 r1, Item.root2 r2] ++ inj ++ done.map (fun e => Item.tx e.1)
 
 /-- the fingerprint `set_prepared_proposal` stores -/
 def PrepReq.fp (r : PrepReq) (items : List Item) : CachedProposal :=
   { time := r.time, proposer := r.proposer, txs := items, lastCommit := r.lastCommit,
     misbehavior := r.misbehavior, nextValHash := r.nextValHash, height := r.height }
 
-/-- `prepare_proposal` (no upgrade change hashes at the modelled heights) -/
+/-- `prepare_proposal` -/
 def stepPrepare {S : Type} (p : Prims S) (a : AppState S) (r : PrepReq) : AppState S × Resp S :=
   let a := a.reset
   match p.pre a.work (r.asBlock []) with
@@ -441,14 +462,14 @@ def stepPrepare {S : Type} (p : Prims S) (a : AppState S) (r : PrepReq) : AppSta
     match BSC.new r.maxTxBytes with
     | .error e => (a, .prepareErr e)
     | .ok bsc =>
-      match prepEci p s1 r bsc with
+      match prepInjected p s1 r bsc with
       | .error e => (a, .prepareErr e)
-      | .ok (eciItem, bsc) =>
+      | .ok (inj, bsc) =>
         match prepLoop p (LoopSt.init s1 bsc) r.queue with
         | .error _ => (a, .prepareErr .exec)
         | .ok st =>
           let a := { a with work := st.s, executedTxs := some st.done }
-          let items := proposalItems (p.roots st.s (st.done.map (·.1))).1 (p.roots st.s (st.done.map (·.1))).2 eciItem st.done
+          let items := proposalItems (p.roots st.s (st.done.map (·.1))).1 (p.roots st.s (st.done.map (·.1))).2 inj st.done
           match a.exec.setPrepared (r.fp items) with
           | .error e => (a, .prepareErr e)
           | .ok ex => ({ a with exec := ex }, .prepared items)
